@@ -216,6 +216,32 @@ def build(tier="quick", seed=0):
             pack.add(Obligation(name, lambda tier, name=name, t=t, cond=cond, pos=pos: prove_paths(name, th_carry_on(t, cond, pos), lambda p: (p.value == ("raised", [("first", 1), ("third", 3)]), f"refused record between two accepted ones: {p.value[0]}, read back {p.value[1]}"), lambda m_, p: {"x": model_value(m_, x)}),
                                 replay=lambda w, t=t, pos=pos: {"call": "c19_carry_on", "args": {"ftype": t, "pos": pos, "value": w.get("x") if isinstance(w.get("x"), int) else 2**70 if t == "varint" else 2**31}}, functions=FU))
 
+    def th_ts_unrepresentable(iso):
+        """a timestamp whose UTC form lies outside years 1..9999 has no timestamp-micros reading: it must be refused, the container stays readable"""
+        def th():
+            D = it.call(RD, ["c19/t", [("string", "s"), ("datetime", "ts")]], {})
+            fp = AbsFile(it, mode="wb")
+            w = it.call(av.g["AvroWriter"], [fp], {})
+            it.call(it.getattr_(w, "write"), [it.call(D, [], {"s": "first", "ts": _dt.datetime(2020, 1, 2, tzinfo=UTC)})], {})
+            try:
+                it.call(it.getattr_(w, "write"), [it.call(D, [], {"s": "refused", "ts": _dt.datetime.fromisoformat(iso)})], {})
+                outcome = "written"
+            except PyRaise as e:
+                outcome = "raised"
+            it.call(it.getattr_(w, "close"), [], {})
+            try:
+                rd = it.call(av.g["AvroReader"], [AbsFile(it, fp.content())], {})
+                back = [it.unbase(o.attrs["s"]) for o in it.iterate(rd)]
+            except PyRaise as e:
+                back = f"reading raised {e.cls_name}"
+            return outcome, back
+        return th
+
+    for iso in ("0001-01-01T00:30:00+01:00", "9999-12-31T23:30:00-01:00", "0001-01-01T00:00:00.000001+00:00:01"):
+        name = f"C19.refuse[timestamp {iso}, no UTC form within years 1..9999]"
+        pack.add(Obligation(name, lambda tier, name=name, iso=iso: prove_paths(name, th_ts_unrepresentable(iso), lambda p: (p.value == ("raised", ["first"]), f"timestamp without a UTC form: {p.value[0]}, read back {p.value[1]}")),
+                            replay=lambda w, iso=iso: {"call": "c19_ts_unrepresentable", "args": {"iso": iso}}, functions=FU, mode="boundary values"))
+
     def th_mixed(same_name):
         def th():
             A = it.call(RD, ["c19/a", [("varint", "n")]], {})
